@@ -11,7 +11,7 @@ shutil.copy(f"{wt}/SEEDED/change{k}.diff", f"{d}/patch.diff")
 shutil.copy(f"{wt}/SEEDED/demo{k}.py", f"{d}/demo.py")
 meta = json.load(open(f"{wt}/SEEDED/meta{k}.json"))
 tests = None
-for log in sorted(glob.glob("/tmp/confirm_batch*.log")):
+for log in sorted(glob.glob("/tmp/confirm_batch*.log") + glob.glob("/tmp/seed_batch*.log")):
     for ln in open(log):
         if ln.startswith(f"TESTS {wt} {k} rc="):
             tests = ln.strip()
